@@ -6,28 +6,28 @@ HOOK_COMMITS = ["e6a50de", "e2955a6"]
 
 CHECKS = {
  "C01": dict(level="exploration", technique="property-based testing (proptest): generated documents and spellings, independent-reader oracle per target format, plus enumerated scalar/int/float/depth sweeps",
-   text="Generated-input search with an explicit reference oracle: every generated document is written by harness spelling writers, translated by xt for all 16 format pairs under drawn supply modes, decoded by independent readers and compared type-exactly with the model. Finite sub-domains (special scalars, int boundaries, depth-64 chains) are enumerated completely. Exploration is the right level: the property quantifies over an unbounded value/spelling space.",
+   text="Generated-input search with an explicit reference oracle: every generated document is written by harness spelling writers, translated by xt for all 16 format pairs under drawn supply modes, decoded by independent readers and compared type-exactly with the model. Finite sub-domains (special scalars, int boundaries, depth-64 chains, collection/string lengths on every MessagePack header boundary 15..65537 and around 4096) are enumerated completely. Exploration is the right level: the property quantifies over an unbounded value/spelling space.",
    note="Trusts the harness readers (own JSON/MessagePack decoders, libyaml events + own core-schema resolver, toml_edit walk) and writers (each writer is validated against the reader on every case). Known findings K3/K5 are excluded by input-side class predicates.", ref="4 C01"),
  "C02": dict(level="exploration", technique="differential property-based testing (proptest) of slice vs scheduled-reader supply over generated/mutated/enumerated byte strings, plus file/stdin/FIFO differential through the real binary",
    text="Generated-input search with a differential oracle that is exactly the statement: same verdict, byte-identical output on success, prefix-comparable partial output on failure, for the same bytes under two supply modes. Token sequences up to a length bound are enumerated exhaustively; everything else is sampled.",
    note="Known findings K1 and K2 are excluded only when both their input-side predicate and their licensed disagreement shape hold. Error texts are not compared.", ref="4 C02"),
  "C04": dict(level="exploration", technique="property-based testing and bounded enumeration in crash-isolated workers: generated/mutated/adversarial byte strings and planted refusals, oracle = returns Ok or Err (no panic, signal or hang); real binaries sampled",
-   text="Totality is checked by executing: every case runs slice and reader translation under catch_unwind inside worker processes whose death (signal) is attributed to a concrete case by traced re-execution; a heartbeat watchdog turns non-termination into a reported case. The debug and release binaries (panic=abort) are run on a sample and on all adversarial shapes.",
+   text="Totality is checked by executing: every case runs slice and reader translation under catch_unwind inside worker processes whose death (signal) is attributed to a concrete case by traced re-execution; a heartbeat watchdog turns non-termination into a reported case. The debug and release binaries (panic=abort) are run on a sample and on all adversarial shapes; failing runs are repeated with standard error on /dev/full. The corpus includes YAML re-encoded as UTF-16/32, whole, damaged and longer than every internal buffer.",
    note="Sees only executed inputs. libyaml's scanner is quadratic in flow-nesting depth, so flow nesting beyond 20,000 levels is not given to the YAML parser (it terminates, in hours).", ref="4 C04"),
  "C03": dict(level="exploration", technique="stateful property-based testing (proptest): generated multi-input histories on one Translator; metamorphic oracle (concatenation of stand-alone translations, independence from call distribution) plus independent framing reader",
    text="Generated histories of inputs and documents with drawn separators, formats, supply modes and buffer-boundary padding; the output must equal the concatenation of per-document translations under three different distributions over calls, and the independent reader of the target must recover exactly N documents equal to the model values.",
    note="TOML targets belong to C08. Trusts the harness stream writers (validated against the harness readers on every case) and readers.", ref="4 C03"),
  "C06": dict(level="exploration", technique="property-based testing (proptest): fixed-point oracle xt(B->B)(y)==y and round-trip oracle xt(B->A)(xt(A->B)(x))==xt(A->A)(x) over generated documents incl. extension values",
-   text="Self-referential oracles that need no reference implementation: byte-for-byte idempotence of every successful output from both supply modes, and byte-level (value-level for TOML) round trip for common-model documents, over all 16 ordered pairs.",
+   text="Self-referential oracles that need no reference implementation: byte-for-byte idempotence of every successful output from both supply modes, and byte-level (value-level for TOML) round trip for common-model documents, over all 16 ordered pairs; unit 'wide' enumerates lengths on the header boundaries up to 5000.",
    note="A refused first hop is not a violation. Known findings K5 (TOML ordering) and K7 (f32 text output) are excluded by input-side predicates plus licensed shapes.", ref="4 C06"),
  "C07": dict(level="exploration", technique="exhaustive enumeration of all Unicode scalar values and ill-formed unit classes through the re-encoder hook against std's decoder as reference, plus differential property-based testing of UTF-16/32 vs UTF-8 YAML end to end",
    text="The character domain is finite and is enumerated completely (every scalar value, every encoding, BOM and buffer-size combination listed in the evidence; every ill-formed one- and two-unit class at three positions); the end-to-end claim is sampled with generated YAML streams under all supply modes.",
    note="Reference = Rust's standard library UTF-8/UTF-16 conversions. Buffer sizes are a finite listed set, not all sizes.", ref="4 C07"),
  "C08": dict(level="exploration", technique="model-based stateful property testing (proptest): histories of translate calls on one TOML translator against a reference state machine (attempted/accepted), with refusals planted at enumerated node paths",
-   text="Reference model of the TOML output contract run in lock-step with the real translator over a logging writer: per call verdict, bytes written by that call, validity and value of the single accepted document (toml_edit), and the 'nothing or exactly one document' invariant after every step.",
+   text="Reference model of the TOML output contract run in lock-step with the real translator over a logging writer: per call verdict, bytes written by that call, validity and value of the single accepted document (toml_edit), and the 'nothing or exactly one document' invariant after every step. Unit 'cli' runs the same histories as the input files of one `xt -t toml` invocation of the real binaries.",
    note="For binary/ext/f32/non-string non-null keys the statement does not fix accept-or-refuse; the check requires only nothing-and-Err or one valid document. K5 and K8 are known findings.", ref="4 C08"),
  "C09": dict(level="exploration", technique="differential property-based testing of detected vs explicit runs using the detection hook, plus bounded-exhaustive and random model-based testing of the rewindable input handle",
-   text="Part 1 compares, for generated and enumerated byte strings and both supply modes, the complete outcome (verdict, bytes, error text) of a detected run with the run that names the hook-reported format, and requires 'unable to detect input format' otherwise. Part 2 runs every program of handle operations up to a bound (all small data sizes, all chunkings, both endings) against the reference model 'the byte string itself'.",
+   text="Part 1 compares, for generated and enumerated byte strings and both supply modes, the complete outcome (verdict, bytes, error text) of a detected run with the run that names the hook-reported format, and requires 'unable to detect input format' otherwise. Part 2 runs every program of handle operations up to a bound (all small data sizes, all chunkings, both endings) against the reference model 'the byte string itself'. Unit 'sizes' feeds TOML documents just below the 2 MiB reader cut-off.",
    note="Observes detection through the verif hook. Known findings K4 and K6 license two precisely shaped differences between failing detected and explicit reader runs.", ref="4 C09"),
  "C10": dict(level="exploration", technique="property-based testing (proptest): xt output fed back without a format vs with the format named; TOML precondition decided by independent harness predicates",
    text="Generated collection-rooted documents are translated to each output format; the output must be detected as that format (hook) and translate identically with and without naming it, from a slice and from a scheduled reader. The TOML precondition is evaluated without xt and the fraction satisfying it is reported.",
@@ -36,7 +36,7 @@ CHECKS = {
    text="The harness owns the packetisation of a lazily generated stream and checks, at every read call of every generated stream, the statement's lag bound against per-document translation sizes; peak live heap is measured by a counting allocator against a bound proportional to one document, plus a 10x-length growth comparison.",
    note="Memory bounds are loose by design (slurping-class regressions). Document sizes up to tens of KiB in quick, hundreds of KiB in thorough.", ref="4 C05"),
  "C11": dict(level="fault_enumeration", technique="planted-defect enumeration over generated documents: syntax damage at drawn byte positions vs the parser crate's own message (mirrored drive), unrepresentable leaf at every node path vs standalone serializer reasons, writer fault at every output byte",
-   text="Each generated document gets exactly one planted defect; the oracle for the error text is derived at run time from the very parser/serializer crates xt drives (same locked versions), never hard-coded. Node paths and writer fault offsets are enumerated exhaustively per document; syntax damage positions are drawn.",
+   text="Each generated document gets exactly one planted defect; the oracle for the error text is derived at run time from the very parser/serializer crates xt drives (same locked versions), never hard-coded. Node paths and writer fault offsets are enumerated exhaustively per document; syntax damage positions are drawn. For YAML through the reader route the harness drives libyaml itself over the text and requires its description(s) and positions in xt's message; what libyaml rejects must not translate successfully.",
    note="Positions in messages are not asserted to be stream-relative. For MessagePack targets the inner I/O error is not printed by rmp_serde; its own failure phrase is required instead.", ref="4 C11"),
  "C12": dict(level="fault_enumeration", technique="exhaustive fault-offset enumeration per generated input: reader failing at every input offset, writer failing at every output offset, short-write patterns, one transient Interrupted at every offset; oracle = verdict, preserved error text, document-prefix / byte-prefix relation to the fault-free run",
    text="For every generated valid stream all reader fault offsets 0..=|input| and all writer fault offsets below the output length are enumerated (sampled only above 2 KiB / 1 KiB), for named and detected sources (UTF-8 and UTF-16/32 YAML), all targets and drawn read schedules; a reader interrupted exactly once at every offset must give the fault-free output or a clean failure (named formats).",
